@@ -17,6 +17,10 @@ def run(ctx, rep):
     # a literal character counts once whether it is a Literal or (under ignore(case)) a class: ignore(case) leaves the default priority alone
     cg.rule_complexity(rep, crate)
     cg.rule_ignore_case_writers(rep, crate)
+    # what a definition compiles to depends on that definition alone: no cache or counter shared between compilations (a cache keyed
+    # without the ignore(case) flag hands a later definition the case sensitivity of an earlier one)
+    from props import c16
+    c16.rule_entropy(rep, [('logos_codegen', crate)])
     # a literal is compared with the source's own bytes in both runtimes (read(offset) is the byte-level sub-slice at offset)
     from props import rt
     rt.rule_read_bounds(rep, ctx.mir('ws-default')['logos'], 'ws-default')
